@@ -268,6 +268,10 @@ def sym_item_segments(key, dims='full'):
              [I_('trait'), I_('X'), ('G', '{', [I_('fn'), I_('tm'), ('G', '(', []), ('P', ';')])],
              [I_('extern'), ('L', '"C"'), ('G', '{', [I_('fn'), I_('ext'), ('G', '(', []), ('P', ';')])],
              [I_('X'), ('P', '!'), ('G', '{', [I_('fn'), I_('in_macro'), ('G', '(', []), ('G', '{', [])])]]
+    if dims == 'single-fn':
+        # a directly annotated fn: rustc evaluates a `cfg` placed on the item itself before the macro runs, so no cfg alternative
+        attrs = seg(key + '.attrs', [[], [('P', '#'), ('G', '[', [I_('inline')])]], ['no attr', '#[inline]'])
+        return [attrs, vis] + fn_item
     kind = seg(key + '.kind', kinds, ['fn item', 'struct', 'use', 'mod', 'impl', 'trait', 'extern block', 'macro invocation'])
     return [attrs, vis, kind]
 
@@ -426,7 +430,12 @@ def _pb_parse(ex, c, a):
             idn = Ident(nm, span_at(pb), 'input')
             pb.pos += 1
             return Ok(idn)
-        return err(pb, 'expected identifier' if t != END else 'unexpected end of input, expected identifier')
+        if t == END:
+            return err(pb, 'unexpected end of input, expected identifier')
+        kw = tk_ident(ex, t)
+        if kw is not None and isinstance(kw, str) and kw != '_':
+            return err(pb, f'expected identifier, found keyword `{kw}`')
+        return err(pb, 'expected identifier')
     if short == 'Visibility':
         return Ok(parse_visibility(ex, pb))
     if short in ('V', 'LitBool'):
@@ -470,6 +479,16 @@ def _pb_call(ex, c, a):
     f = a[1]
     if isinstance(f, FnItem) and 'parse_outer' in f.path:
         return parse_outer_attrs(ex, pb_of(a[0]))
+    if isinstance(f, FnItem) and 'parse_any' in f.path:
+        # syn::ext::IdentExt::parse_any: any identifier token, keywords included
+        pb = pb_of(a[0])
+        t = tok_at(ex, pb)
+        nm = tk_ident(ex, t) if t != END else None
+        if nm is not None:
+            idn = Ident(nm, span_at(pb), 'input')
+            pb.pos += 1
+            return Ok(idn)
+        return err(pb, 'expected ident' if t != END else 'unexpected end of input, expected ident')
     raise Unsupported('ParseBuffer::call ' + str(f))
 
 
